@@ -4,7 +4,7 @@ fb_slot_t fb_slots[FB_MAX_SLOTS];
 _Atomic int fb_nslots;
 
 static _Atomic unsigned fb_cursor;
-static _Atomic unsigned char fb_used[FB_MAX_SLOTS];  // 0 free, 1 in use
+static _Atomic unsigned char fb_used[FB_MAX_SLOTS];  // 0 free, 1 in use, 2 being initialised, 3 released by its spawner
 
 fb_slot_t* fb_slot_new(void) {
   // slots of finished fibers are recycled (long thorough runs create far more fibers than there are slots)
@@ -13,12 +13,9 @@ fb_slot_t* fb_slot_new(void) {
     const unsigned i = atomic_fetch_add(&fb_cursor, 1) % FB_MAX_SLOTS;
     unsigned char exp = 0;
     fb_slot_t* s = &fb_slots[i];
-    if (atomic_load(&fb_used[i]) == 1 && atomic_load(&s->finished) && !atomic_load(&s->where)) {
-      exp = 1;
-      if (!atomic_compare_exchange_strong(&fb_used[i], &exp, 2)) continue;
-    } else if (!atomic_compare_exchange_strong(&fb_used[i], &exp, 2)) {
-      continue;
-    }
+    // only slots that were never used, or that their spawner released after joining the fiber, are taken
+    if (atomic_load(&fb_used[i]) == 3) exp = 3;
+    if (!atomic_compare_exchange_strong(&fb_used[i], &exp, 2)) continue;
     memset(s, 0, sizeof(*s));
     s->id = (int)i;
     s->rng = vp_mix(vp_cfg.seed, 5000 + (uint64_t)atomic_load(&fb_cursor));
@@ -122,6 +119,12 @@ fb_slot_t* fb_spawn(void* (*fn)(void*), void* arg) {
     _exit(2);
   }
   return s;
+}
+
+void fb_slot_release(fb_slot_t* s) {
+  atomic_store(&s->where, (const char*)0);
+  atomic_store(&s->finished, 1);
+  atomic_store(&fb_used[s->id], 3);
 }
 
 void fb_join_all(fb_slot_t** s, int n) {
